@@ -419,7 +419,25 @@ func declaredOnly(v any, schema M) any {
 	if !ok {
 		return v
 	}
-	props, _ := schema["properties"].(M)
+	props := M{}
+	var collect func(s M)
+	collect = func(s M) {
+		if p, ok := s["properties"].(M); ok {
+			for k, v := range p {
+				props[k] = v
+			}
+		}
+		for _, kw := range []string{"allOf", "anyOf", "oneOf"} {
+			if l, ok := s[kw].([]any); ok {
+				for _, m := range l {
+					if ms, ok := m.(M); ok {
+						collect(ms)
+					}
+				}
+			}
+		}
+	}
+	collect(schema)
 	out := M{}
 	for k, e := range obj {
 		if _, ok := props[k]; ok {
@@ -427,6 +445,29 @@ func declaredOnly(v any, schema M) any {
 		}
 	}
 	return out
+}
+
+// composeForm splits the properties of a flat form schema over the branches of an allOf: the
+// members of the body are the same, the schema reaches them through composition.
+func composeForm(t *rapid.T, s M) M {
+	props := s["properties"].(M)
+	first, second := M{}, M{}
+	for i, k := range jv.Keys(props) {
+		if i%2 == rapid.IntRange(0, 1).Draw(t, "split") {
+			first[k] = props[k]
+		} else {
+			second[k] = props[k]
+		}
+	}
+	a, b := M{"type": "object", "properties": first}, M{"type": "object", "properties": second}
+	if req, ok := s["required"].([]any); ok {
+		if _, inFirst := first[req[0].(string)]; inFirst {
+			a["required"] = req
+		} else {
+			b["required"] = req
+		}
+	}
+	return M{"type": "object", "allOf": []any{a, b}}
 }
 
 func stripNull(v any) any {
@@ -600,6 +641,9 @@ func gen(t *rapid.T) Case {
 	case 2, 3:
 		s, enc := formSchema(t)
 		v := formValue(t, s)
+		if rapid.IntRange(0, 2).Draw(t, "composed") == 0 {
+			s = composeForm(t, s)
+		}
 		mode := rapid.SampledFrom([]string{"form", "multipart"}).Draw(t, "family")
 		c := Case{Mode: mode, Schema: jv.Canon(s), Value: jv.Canon(v), NoRO: rapid.Bool().Draw(t, "noro")}
 		if len(enc) > 0 && mode == "form" {
